@@ -42,6 +42,15 @@ func (l *streamLog) add(ts time.Time, sequenceNumber uint16, ecn uint8) {
 	if unwrappedSequenceNumber < l.nextSequenceNumberToReport {
 		return
 	}
+	if report, ok := l.log[unwrappedSequenceNumber]; ok {
+		// RFC 8888 section 3.1: for duplicates the arrival time of the first copy is reported,
+		// with an ECN-CE mark if any of the copies carried one.
+		if rtcp.ECN(ecn) == rtcp.ECNCE {
+			report.ecn = ecn
+		}
+
+		return
+	}
 	l.log[unwrappedSequenceNumber] = &packetReport{
 		arrivalTime: ts,
 		ecn:         ecn,
